@@ -59,6 +59,7 @@ func implPartition(a, b, iv, last int) (res string, periods [][2]int, part *date
 func runC11(c *Ctx) {
 	// ---- stream 1: calendar primitives
 	var days []int
+	var suspects []int // days on which code and model disagree: the partition search is directed at them
 	if c.Thorough() {
 		for z := 0; z <= maxDay; z++ {
 			days = append(days, z)
@@ -78,7 +79,7 @@ func runC11(c *Ctx) {
 		}
 		days = append(days, 0, 1, 2, maxDay-1, maxDay)
 	}
-	if c.OnlyIndex < 0 || c.OnlyStr == "calendar" {
+	if !c.Replay || c.OnlyStr == "calendar" {
 		const chunk = 50000
 		for off := 0; off < len(days); off += chunk {
 			end := off + chunk
@@ -96,7 +97,9 @@ func runC11(c *Ctx) {
 				}
 				c.Evals++
 				impl := implCal(z)
-				c.Compare("calendar", z, "cal", map[string]any{"day": z, "date": dayTime(z).Format("2006-01-02")}, impl, answers[i])
+				if !c.Compare("calendar", z, "cal", map[string]any{"day": z, "date": dayTime(z).Format("2006-01-02")}, impl, answers[i]) && len(suspects) < 20 {
+					suspects = append(suspects, z)
+				}
 				t := dayTime(z)
 				c.Class(fmt.Sprintf("cal/m%d/wd%d/leap%v", int(t.Month()), int(t.Weekday()), t.YearDay() == 366 || dayTime(z-t.YearDay()+366).Year() == t.Year()))
 			}
@@ -109,13 +112,49 @@ func runC11(c *Ctx) {
 	lasts := []int{0, 0, 0, 1, 2, 3, 5, 100, -1}
 	bt := c.NewBatch()
 	defer bt.Flush()
-	for i := 0; i < n; i++ {
+	// directed search: windows that end / start on or around a day where code and model differ
+	type win struct{ a, b, iv, last int }
+	var directed []win
+	for _, z := range suspects {
+		for iv := 1; iv < 6; iv++ {
+			for _, span := range []int{0, 20, 45, 100, 200, 400} {
+				directed = append(directed, win{z - span, z, iv, 0}, win{z - span, z + 3, iv, 0}, win{z - 3, z + span, iv, 0}, win{z - span, z, iv, 2})
+			}
+		}
+	}
+	if len(directed) > 0 {
+		c.Notes = append(c.Notes, fmt.Sprintf("directed search: %d windows around %d days on which StartOf/EndOf differ from the model", len(directed), len(suspects)))
+	}
+	if c.Replay && c.ReplayInput != nil && c.OnlyStr == "partition" {
+		in := c.ReplayInput
+		if w, ok := in["window"].(map[string]any); ok {
+			in = w
+		}
+		iv := 0
+		for k, x := range intervals {
+			if x.String() == in["interval"] {
+				iv = k
+			}
+		}
+		c.Replay = false
+		c.runPartitionCase(bt, c.Rng("partition", c.OnlyIndex), c.OnlyIndex, int(in["a"].(float64)), int(in["b"].(float64)), iv, int(in["last"].(float64)))
+		return
+	}
+	for i := -len(directed); i < n; i++ {
 		i := i
 		if !c.Want("partition", i) {
 			continue
 		}
 		r := c.Rng("partition", i)
 		var a, b int
+		if i < 0 {
+			w := directed[-i-1]
+			if w.a < 1 {
+				continue
+			}
+			c.runPartitionCase(bt, r, i, w.a, w.b, w.iv, w.last)
+			continue
+		}
 		base := dayNum(time.Date(r.Range(1900, 2100), time.Month(r.Range(1, 12)), r.Range(1, 28), 0, 0, 0, 0, time.UTC))
 		switch r.Intn(10) {
 		case 0: // inverted window
@@ -140,51 +179,57 @@ func runC11(c *Ctx) {
 		if c.Thorough() && r.Chance(1, 10) {
 			last = r.Range(-3, 400)
 		}
-		c.Evals++
-		in := map[string]any{"start": dayTime(a).Format("2006-01-02"), "end": dayTime(b).Format("2006-01-02"), "a": a, "b": b, "interval": intervals[iv].String(), "last": last}
-		impl, periods, part := implPartition(a, b, iv, last)
-		bt.Add(func(model string) { c.Compare("partition", i, "part", in, impl, model) }, "part", itoa(a), itoa(b), itoa(iv), itoa(last))
-		c.Class(fmt.Sprintf("part/%s/inv%v/last%s/n%s", intervals[iv], b < a, sign(last), bucket(len(periods))))
-		if i < 3 {
-			c.Sample(map[string]any{"stream": "partition", "input": in, "impl": impl})
+		c.runPartitionCase(bt, r, i, a, b, iv, last)
+	}
+}
+
+func (c *Ctx) runPartitionCase(bt *Batch, r *RNG, i, a, b, iv, last int) {
+	c.Evals++
+	in := map[string]any{"start": dayTime(a).Format("2006-01-02"), "end": dayTime(b).Format("2006-01-02"), "a": a, "b": b, "interval": intervals[iv].String(), "last": last}
+	impl, periods, part := implPartition(a, b, iv, last)
+	bt.Add(func(model string) { c.Compare("partition", i, "part", in, impl, model) }, "part", itoa(a), itoa(b), itoa(iv), itoa(last))
+	c.Class(fmt.Sprintf("part/%s/inv%v/last%s/n%s", intervals[iv], b < a, sign(last), bucket(len(periods))))
+	if i < 3 {
+		c.Sample(map[string]any{"stream": "partition", "input": in, "impl": impl})
+	}
+	if part == nil {
+		c.Tag("partition-panic")
+		// the only panic the model predicts is the zero start date
+		c.Monitor("partition", i, "C11_zero_start_panics", in, a == 0, "NewPartition panicked with a non-zero start")
+		return
+	}
+	// monitor: the property predicate evaluated by the Lean driver on the implementation's periods
+	bt.Add(func(mon string) {
+		c.Monitor("partition", i, "partitionOK", in, mon == "ok", "periods "+impl+" => "+mon)
+	},
+		"c11mon", itoa(a), itoa(b), itoa(iv), itoa(last), periodsField(periods))
+	// alignment: probe dates around the window and at every period border
+	probes := []int{a - 400, a - 1, a, b, b + 1, b + 400}
+	for k, p := range periods {
+		if len(periods) <= 6 || k < 2 || k >= len(periods)-2 || r.Chance(4, len(periods)) {
+			probes = append(probes, p[0], p[1])
 		}
-		if part == nil {
-			c.Tag("partition-panic")
-			// the only panic the model predicts is the zero start date
-			c.Monitor("partition", i, "C11_zero_start_panics", in, a == 0, "NewPartition panicked with a non-zero start")
+	}
+	for k := 0; k < 4; k++ {
+		probes = append(probes, a-50+r.Intn(b-a+100+1))
+	}
+	align := part.Align()
+	for _, d := range probes {
+		if d < 0 {
 			continue
 		}
-		// monitor: the property predicate evaluated by the Lean driver on the implementation's periods
-		bt.Add(func(mon string) { c.Monitor("partition", i, "partitionOK", in, mon == "ok", "periods "+impl+" => "+mon) },
-			"c11mon", itoa(a), itoa(b), itoa(iv), itoa(last), periodsField(periods))
-		// alignment: probe dates around the window and at every period border
-		probes := []int{a - 400, a - 1, a, b, b + 1, b + 400}
-		for k, p := range periods {
-			if len(periods) <= 6 || k < 2 || k >= len(periods)-2 || r.Chance(4, len(periods)) {
-				probes = append(probes, p[0], p[1])
-			}
+		var implA string
+		if t := align(dayTime(d)); t.IsZero() {
+			implA = "none"
+		} else {
+			implA = itoa(dayNum(t))
 		}
-		for k := 0; k < 4; k++ {
-			probes = append(probes, a-50+r.Intn(b-a+100+1))
-		}
-		align := part.Align()
-		for _, d := range probes {
-			if d < 0 {
-				continue
-			}
-			var implA string
-			if t := align(dayTime(d)); t.IsZero() {
-				implA = "none"
-			} else {
-				implA = itoa(dayNum(t))
-			}
-			d := d
-			in2 := map[string]any{"window": in, "d": d, "date": dayTime(d).Format("2006-01-02")}
-			bt.Add(func(modelA string) { c.Compare("partition", i, "align", in2, implA, modelA) }, "align", itoa(a), itoa(b), itoa(iv), itoa(last), itoa(d))
-			bt.Add(func(monA string) {
-				c.Monitor("partition", i, "alignOK", in2, monA == "ok", "align("+itoa(d)+")="+implA+" over "+impl+" => "+monA)
-			}, "c11alignmon", itoa(b), periodsField(periods), itoa(d), implA)
-		}
+		d := d
+		in2 := map[string]any{"window": in, "d": d, "date": dayTime(d).Format("2006-01-02")}
+		bt.Add(func(modelA string) { c.Compare("partition", i, "align", in2, implA, modelA) }, "align", itoa(a), itoa(b), itoa(iv), itoa(last), itoa(d))
+		bt.Add(func(monA string) {
+			c.Monitor("partition", i, "alignOK", in2, monA == "ok", "align("+itoa(d)+")="+implA+" over "+impl+" => "+monA)
+		}, "c11alignmon", itoa(b), periodsField(periods), itoa(d), implA)
 	}
 }
 
